@@ -164,13 +164,37 @@ def obs1(ctx, prog, cfg):
 
 def ord_hash_dbg(ctx, prog, cfg):
     mm = shapes.must_match
-    for name, callee in (("<CircularBuffer<N, T> as PartialOrd<CircularBuffer<M, U>>>::partial_cmp", "partial_cmp"), ("<CircularBuffer<N, T> as Ord>::cmp", "cmp")):
-        mm(ctx, "ORD1", prog, name, [r"call CircularBuffer::iter\(self\)", r"call CircularBuffer::iter\(other\)",
-                                     r"call core::iter::traits::iterator::Iterator::%s\(CircularBuffer::iter\(self\), CircularBuffer::iter\(other\)\)" % callee,
-                                     r"return Iterator::%s\(CircularBuffer::iter\(self\), CircularBuffer::iter\(other\)\)" % callee], cfg,
-           "self.iter().%s(other.iter())" % callee, "`%s` is not std's lexicographic comparison of the two element sequences (self on the left)" % name)
+    ord1(ctx, prog, cfg)
     hash1(ctx, prog, cfg)
     dbg1(ctx, prog, cfg)
+
+
+def ord1(ctx, prog, cfg, rule="ORD1"):
+    """ordering is std's lexicographic comparison of the two element sequences, self on the left: the returned
+    value is the one call of Iterator::partial_cmp / cmp on (elements of self, elements of other); nothing else"""
+    for name, callee in (("<CircularBuffer<N, T> as PartialOrd<CircularBuffer<M, U>>>::partial_cmp", "partial_cmp"), ("<CircularBuffer<N, T> as Ord>::cmp", "cmp")):
+        f = ctx.need_fn(prog, name, rule)
+        if f is None:
+            continue
+        why = []
+        cmps = [b for b, t in f.calls(False) if mir.callee_path(t) == "core::iter::traits::iterator::Iterator::" + callee]
+        for b, t in f.calls(False):
+            p = mir.callee_path(t) or ""
+            if b not in cmps and mir.callee_short(t) not in ("CircularBuffer::iter", REF_INTO_ITER, "<I as IntoIterator>::into_iter"):
+                why.append("calls `%s`" % p)
+        if len(cmps) != 1:
+            why.append("%d calls of Iterator::%s" % (len(cmps), callee))
+        else:
+            a = [f.deep_simplify(x) for x in f.call_args(cmps[0])]
+            if not (elems_source(a[0], 1) and elems_source(a[1], 2, allow_bare=True)):
+                why.append("compares `%s` with `%s`, not the elements of self with the elements of other" % (mir.fmt(a[0], f)[:60], mir.fmt(a[1], f)[:60]))
+            rets = f.return_blocks()
+            r = [mir.strip_casts(f.deep_simplify(f.return_expr(rb))) for rb in rets]
+            if not (len(r) == 1 and isinstance(r[0], tuple) and r[0][0] == "call" and r[0][3] == cmps[0]):
+                why.append("does not return that comparison unchanged")
+        ctx.check(not why, rule, name, "self.iter().%s(other.iter())" % callee, f.loc,
+                  "`%s` is not std's lexicographic comparison of the two element sequences (self on the left): %s" % (name, "; ".join(why)),
+                  "returns Iterator::%s(elements of self, elements of other)" % callee, cfg)
 
 
 DBG_FN = "<CircularBuffer<N, T> as Debug>::fmt"
@@ -291,6 +315,10 @@ def _piece(e):
         else:
             return None
         e = base
+    elif isinstance(e, tuple) and e[0] == "field" and e[2] in ("0", "1") and isinstance(e[1], tuple) and e[1][0] == "call" and e[1][1] in ("<[T]>::split_at", "<[T]>::split_at_mut") and len(e[1][2]) == 2:
+        # split_at(s, k) = (s[..k], s[k..])
+        kind, bound = ("to" if e[2] == "0" else "from"), e[1][2][1]
+        e = mir.strip_casts(e[1][2][0])
     if isinstance(e, tuple) and e[0] == "field" and e[2] in ("0", "1") and isinstance(e[1], tuple) and e[1][0] == "call" and e[1][1] == "CircularBuffer::as_slices":
         arg = mir.strip_casts(e[1][2][0])
         which = "self" if arg == ("param", 1) else ("other" if arg == ("param", 2) else None)
@@ -368,8 +396,29 @@ def base2(ctx, prog, cfg):
                           "built from len(a_left), len(b_left) by subtraction only", cfg)
 
 
+REF_INTO_ITER = "<&CircularBuffer<N, T> as IntoIterator>::into_iter"
+
+
+def elems_source(e, param, allow_bare=False):
+    """is e the in-order element iterator of parameter `param`: `p.iter()`, `(&p).into_iter()`, an identity
+    `into_iter()` of one of those — or (allow_bare) the buffer reference itself where a std adaptor takes an
+    IntoIterator (C07's DERIV1 decides that <&CircularBuffer as IntoIterator>::into_iter is iter())"""
+    e = mir.strip_casts(e)
+    for _ in range(4):
+        if isinstance(e, tuple) and e and e[0] == "ref" and isinstance(e[1], tuple) and e[1][0] == "local" and len(e[1]) > 2:
+            e = mir.strip_casts(e[1][2])
+            continue
+        if isinstance(e, tuple) and e[:2] == ("call", "<I as IntoIterator>::into_iter") and len(e[2]) == 1:
+            e = mir.strip_casts(e[2][0])
+            continue
+        break
+    if isinstance(e, tuple) and e[:1] == ("call",) and e[1] in ("CircularBuffer::iter", REF_INTO_ITER) and len(e[2]) == 1:
+        return _passthrough_root(e[2][0]) == ("param", param)
+    return allow_bare and _passthrough_root(e) == ("param", param)
+
+
 HASH_FN = "<CircularBuffer<N, T> as Hash>::hash"
-_HASH_PLUMBING = ("CircularBuffer::len", "CircularBuffer::iter", "<I as IntoIterator>::into_iter", "<Iter<T> as Iterator>::next",
+_HASH_PLUMBING = ("CircularBuffer::len", "CircularBuffer::iter", "<I as IntoIterator>::into_iter", REF_INTO_ITER, "<Iter<T> as Iterator>::next",
                   "Iterator::for_each")
 
 
@@ -418,8 +467,8 @@ def hash1(ctx, prog, cfg):
     else:
         g, b = elems[0]
         a = [g.deep_simplify(x) for x in g.call_args(b)]
-        iters = f.calls_to("CircularBuffer::iter", unwind=False)
-        if len(iters) != 1 or f.call_args(iters[0][0]) != [("param", 1)] and tuple(f.call_args(iters[0][0])) != (("param", 1),):
+        iters = f.calls_to("CircularBuffer::iter", unwind=False) + f.calls_to(REF_INTO_ITER, unwind=False)
+        if len(iters) != 1 or [_passthrough_root(f.deep_simplify(x)) for x in f.call_args(iters[0][0])] != [("param", 1)]:
             why.append("the elements do not come from exactly one `self.iter()`")
         if g is f:
             it = ("call", "CircularBuffer::iter", (("param", 1),))
@@ -427,9 +476,7 @@ def hash1(ctx, prog, cfg):
             okx = (isinstance(x, tuple) and x[0] == "field" and x[2] == "0" and x[1][0] == "as" and x[1][2] == "Some"
                    and x[1][1][0] == "call" and x[1][1][1] == "<Iter<T> as Iterator>::next")
             if okx:
-                src = x[1][1][2][0]
-                calls = [s[1] for s in mir.walk(src) if isinstance(s, tuple) and s and s[0] == "call"]
-                okx = calls in (["<I as IntoIterator>::into_iter", "CircularBuffer::iter"], ["CircularBuffer::iter"])
+                okx = elems_source(x[1][1][2][0], 1)
             if not okx:
                 why.append("the hashed item `%s` is not the item produced by `self.iter()`" % mir.fmt(x, g))
             if a[1] != ("param", 2):
@@ -443,7 +490,7 @@ def hash1(ctx, prog, cfg):
             else:
                 fa = [mir.fmt(f.deep_simplify(x), f) for x in f.call_args(fe[0][0])]
                 import re as _re
-                if not (_re.fullmatch(r"CircularBuffer::iter\(self\)(@bb\d+)?", fa[0]) and _re.fullmatch(r"\{closure#0\}::\{0: state\}", fa[1])):
+                if not (elems_source(f.deep_simplify(f.call_args(fe[0][0])[0]), 1) and _re.fullmatch(r"\{closure#0\}::\{0: state\}", fa[1])):
                     why.append("for_each(%s) is not self.iter().for_each(|item| ..state..)" % ", ".join(fa))
                 if lens and lens[0][0] is f and not f.dominates(lens[0][1], fe[0][0]):
                     why.append("an element can be hashed before the length")
